@@ -18,7 +18,7 @@ type RunConfig struct {
 	Tier     string          `json:"tier"`
 	Oracles  map[string]bool `json:"oracles,omitempty"`  // nil: all
 	Disabled map[string]bool `json:"disabled,omitempty"` // ingredients disabled (known findings)
-	Known    map[string]bool `json:"known,omitempty"`    // oracle classes listed as known findings
+	Known    map[string]string `json:"known,omitempty"`  // oracle class -> ingredient that must have been used ("" = any): listed known findings
 
 	N          int             `json:"n"`
 	Heights    int             `json:"heights"`
@@ -46,6 +46,7 @@ type RunConfig struct {
 	FaultFree     bool     `json:"fault_free"`
 	StabiliseAt   int      `json:"stabilise_at"` // step at which phase 2 starts (0: never)
 	Mutation      string   `json:"mutation,omitempty"`
+	Director      string   `json:"director,omitempty"`
 }
 
 type Limits struct {
